@@ -1031,7 +1031,7 @@ package app
 //@   ensures wrap.GetMasterHostFromDcs.ok [C06,C09,C05]: resultof("Get", 1) == nil || errIs(resultof("Get", 1), dcs.ErrNotFound) ==> result1 == nil
 // ---- the observation function: which answer of the server ends up in which field of the collected state -----------------
 //@ func (*app.App).getNodeState
-//@   ensures obs.cascade [C16]: result.IsCascade == resultof("IsCascadeHost", 1)
+//@   ensures obs.cascade [C16,C04]: result.IsCascade == has(app.cluster.cascadeNodes, host)
 //@   ensures obs.ping_recheck [C05,C04,C10]: reached("Ping", 1) ==> result.PingOk == resultof("Ping", 1, 0)
 //@ func (*app.App).getNodeState$1
 //@   requires c20 [safety]: nodeState != nil && node != nil
